@@ -145,10 +145,16 @@ def monthLoop (s : Sched) (z : Zone) : Nat → Int → Bool → LoopOut :=
     (fun t => dayStart z (addDate z t 0 1 0))
     (fun _ t2 => month z t2 = 1)
 
+/-- The day loop's step: `dayStart(t.AddDate(0,0,1))`, or two days ahead when that did not advance
+(the next local day does not exist: Pacific/Apia skipped 2011-12-30). -/
+def dayInc (z : Zone) (t : Int) : Int :=
+  let n := dayStart z (addDate z t 0 0 1)
+  if t < n then n else dayStart z (addDate z t 0 0 2)
+
 def dayLoop (s : Sched) (z : Zone) : Nat → Int → Bool → LoopOut :=
   loop (fun t => dayMatches s z t)
     (fun t => goDate z (year z t) (month z t) (day z t) 0 0 0)
-    (fun t => dayStart z (addDate z t 0 0 1))
+    (fun t => dayInc z t)
     (fun _ t2 => day z t2 = 1)
 
 def hourLoop (s : Sched) (z : Zone) : Nat → Int → Bool → LoopOut :=
